@@ -34,6 +34,36 @@ def gen(tier, rng, harness, driver):
     return lines
 
 
+SPEC_SUCCS = {"TermRet": [], "TermBr": ["Target"], "TermCondBr": ["TargetTrue", "TargetFalse"], "TermSwitch": ["TargetDefault", "Cases[0].Target", "Cases[1].Target"],
+              "TermIndirectBr": ["ValidTargets[0]", "ValidTargets[1]"], "TermInvoke": ["NormalRetTarget", "ExceptionRetTarget"],
+              "TermCallBr": ["NormalRetTarget", "OtherRetTargets[0]", "OtherRetTargets[1]"], "TermResume": [], "TermCatchSwitch": ["Handlers[0]", "Handlers[1]", "DefaultUnwindTarget"],
+              "TermCatchRet": ["Target"], "TermCleanupRet": ["UnwindTarget"], "TermUnreachable": []}
+
+
+def extra(res, findings, tier, rng, harness, driver):
+    """the table rows that violate the decided predicates are the concrete failing inputs of a broken table theorem"""
+    rows = regen.ops_table(harness)
+    bad = 0
+    for r in rows:
+        why = []
+        if sorted(r["operands"]) != sorted(r["slots"]) or len(set(r["operands"])) != len(r["operands"]):
+            why.append("Operands() exposes %s but the value slots are %s ('?' = an address that is not a slot of the instruction)" % (r["operands"], r["slots"]))
+        if not r["live"]:
+            why.append("a write through an exposed slot does not reach the instruction")
+        want = SPEC_SUCCS.get(r["type"])
+        if want is not None and r["succs"] != want:
+            why.append("Succs() = %s, branch targets = %s" % (r["succs"], want))
+        if want is None and r["succs"] != ["-"]:
+            why.append("unexpected Succs on an instruction")
+        if not r["succlive"]:
+            why.append("Succs() does not follow targets changed through Operands()")
+        if why:
+            bad += 1
+            res.violation("%s (instance with every optional operand present and list fields of length 2): %s" % (r["type"], "; ".join(why)),
+                          {"ops": [], "table_row": r, "replay_hint": "cd /verif/harness && ./bin/harness opsgen opsprog/main.go && go run -tags verif ./opsprog | grep " + r["type"]})
+    return {"table_rows": len(rows), "table_rows_violating": bad}
+
+
 def nontrivial(ln, model_out):
     return len(ln.split()) >= 4
 
